@@ -3,7 +3,7 @@ import importlib
 
 ID = "C08"
 _PARTS = []
-for _name in ("c08_link", "c08_net"):
+for _name in ("c08_link", "c08_net", "c08_exts"):
     try:
         _PARTS.append(importlib.import_module("epcheck.props." + _name))
     except ModuleNotFoundError:
